@@ -57,6 +57,15 @@ raise returns the outcome together with the object state reached so far):
   conditions:  x is None / is not None -> is_none;  ==, != -> py_eq (total);  <, <=, >, >= on ints -> Z comparisons,
                on values -> omap truthy (bop O a b) (can raise);  a value as a condition -> truthy;  not / and / or
                with Python's evaluation order and short-circuit;  `a if c else b` likewise
+  self.f.reset() / self.g = self.f.all() / return next(self)      preset / pall / pself (parameters only when used)
+  try: .. except StopIteration: self.f = ..; raise                the bare raise re-raises StopIteration
+  [Pattern.value(v) for v in self.f] (f : list arg)               values_of (pvalue fuel) f
+  dict((k, Pattern.value(v)) for k, v in list(self.f.items()))    kwvalues_of (pvalue fuel) f     (f : list (string * arg))
+  x = Pattern.value(self.f); dict([(k, Pattern.value(x[k])) for k in x])      f = AD kv: VDict of kwvalues_of (pvalue fuel) kv
+  self.operator(v, *args, **kwargs) (operator : fn)               apply_fn operator v args kwargs
+  x = Pattern.value(self.f), x subscripted under Pattern.value: f = AL l (items stepped in place), otherwise x is the value
+                               Pattern.value gives and Pattern.value(x[i]) is py_seq_item x i; if that path does not
+                               translate it is outside the model (Inexact)
   super().reset() (reset only) Pattern.reset: every Pattern-holding attribute (model type arg), in the order in which
                                __init__ creates the attributes: obind (reset_field rp f) (fun f' => ..)
                                (reset_field: a pattern, the items of a list, the values of a dict, and - since the repair
@@ -119,10 +128,13 @@ REQUIRED |= {("PSubsequence", m) for m in ("next", "reset", "init")}
 for _c in ["PReset", "PIndexOf", "PConcatenate", "PArrayIndex", "PDictKey"]:
     REQUIRED |= {(_c, "reset"), (_c, "init")}
 REQUIRED |= {("PDict", "reset")}
+REQUIRED |= {(_c, "next") for _c in ["PReset", "PIndexOf", "PConcatenate", "PDictKey"]}
+REQUIRED |= {("PPingPong", m) for m in ("next", "reset", "init")}
+REQUIRED |= {("PArrayIndex", "next"), ("PDict", "next"), ("PMap", "next")}
 
 COQ_RESERVED = {"end", "in", "let", "fun", "match", "with", "if", "then", "else", "return", "as", "at", "fix", "forall",
                 "exists", "Type", "Prop", "Set", "using", "where", "for", "cofix"}
-SUPPORTED_TYPES = ("val", "arg", "Z", "bool", "list val")
+SUPPORTED_TYPES = ("val", "arg", "Z", "bool", "list val", "fn", "list arg", "list (string * arg)")
 BUILTINS = ("next", "abs", "int", "len", "pow", "round", "list", "reversed", "super", "isinstance", "dict", "tuple")
 
 
@@ -178,11 +190,12 @@ def model_constructors(syntax_v):
 class Env:
     """symbolic state: the current terms of the object's fields and of the locals, and the fuel term for child calls"""
 
-    def __init__(self, fields, locals_, fuel):
+    def __init__(self, fields, locals_, fuel, alias=None):
         self.fields, self.locals, self.fuel = fields, locals_, fuel
+        self.alias = alias or {}        # field (type arg) used as a list: field -> the term of the list it holds (AL l)
 
     def copy(self):
-        return Env(dict(self.fields), dict(self.locals), self.fuel)
+        return Env(dict(self.fields), dict(self.locals), self.fuel, dict(self.alias))
 
     def set_field(self, name, ty, term):
         e = self.copy(); e.fields[name] = (ty, term); return e
@@ -194,6 +207,20 @@ class Env:
 def I(block, n=4):
     """the block on a new line, indented by n (layout of the generated terms only)"""
     return "\n" + " " * n + block.replace("\n", "\n" + " " * n)
+
+
+# further engine functions a method may need (a parameter of the generated definition only when it is used)
+EXTRAS = [("preset", "(preset : nat -> arg -> outcome arg)"),                 # x.reset() on an attribute
+          ("pall", "(pall : nat -> arg -> outcome (list val) * arg)"),        # x.all() on an attribute
+          ("pself", "(pself : nat -> pat -> outcome val * pat)")]             # next(self)
+
+
+def extras_sig(names):
+    return "".join(" " + sig for (n, sig) in EXTRAS if n in names)
+
+
+def extras_args(names):
+    return "".join(" " + n for (n, _) in EXTRAS if n in names)
 
 
 def is_self_attr(n):
@@ -211,8 +238,8 @@ def src_line(st):
 class Ctx:
     """where control goes when a statement list ends / when StopIteration is raised in it"""
 
-    def __init__(self, on_end, on_stop=None, in_try=False, in_loop=False):
-        self.on_end, self.on_stop, self.in_try, self.in_loop = on_end, on_stop, in_try, in_loop
+    def __init__(self, on_end, on_stop=None, in_try=False, in_loop=False, in_handler=False):
+        self.on_end, self.on_stop, self.in_try, self.in_loop, self.in_handler = on_end, on_stop, in_try, in_loop, in_handler
 
 
 class Method:
@@ -227,9 +254,86 @@ class Method:
         self.local_names = {n.id for n in ast.walk(fn) if isinstance(n, ast.Name) and isinstance(n.ctx, ast.Store)}
         self.local_names |= {a.arg for a in fn.args.args}
         # locals used as a list (len(x), x[i]): when bound by Pattern.value(self.f) they ARE the list held by self.f
-        self.listlike = {n.value.id for n in ast.walk(fn) if isinstance(n, ast.Subscript) and isinstance(n.value, ast.Name)}
-        self.listlike |= {n.args[0].id for n in ast.walk(fn) if isinstance(n, ast.Call) and isinstance(n.func, ast.Name)
-                          and n.func.id == "len" and len(n.args) == 1 and isinstance(n.args[0], ast.Name)}
+        def child_arg(c):      # the x of Pattern.value(x) / next(x)
+            if isinstance(c, ast.Call) and not c.keywords and len(c.args) == 1 and (
+                    is_static(c.func, "Pattern", "value") or (isinstance(c.func, ast.Name) and c.func.id == "next")):
+                return c.args[0]
+            return None
+        stepped = [child_arg(c) for c in ast.walk(fn)]
+        stepped = {id(a) for a in stepped if isinstance(a, ast.Subscript)}
+        subs = [n for n in ast.walk(fn) if isinstance(n, ast.Subscript)]
+        lens = [n.args[0] for n in ast.walk(fn) if isinstance(n, ast.Call) and isinstance(n.func, ast.Name)
+                and n.func.id == "len" and len(n.args) == 1 and not n.keywords]
+        # x in `dict([(k, Pattern.value(x[k])) for k in x])`: x is the dict held by an attribute
+        self.dictlike = {d[0] for d in (self.dict_comp(c) for c in ast.walk(fn)) if d}
+        self.listlike = {n.value.id for n in subs if isinstance(n.value, ast.Name) and id(n) in stepped and n.value.id not in self.dictlike}
+        self.listlike |= {a.id for a in lens if isinstance(a, ast.Name)}
+        # locals used as a container VALUE (x[k] read as a value, `.. in x`, x.index(..)): Pattern.value(self.f) then also
+        # accepts a list / dict literal without patterns inside (cvalue)
+        self.container = {n.value.id for n in subs if isinstance(n.value, ast.Name) and id(n) not in stepped}
+        self.container |= {c.id for n in ast.walk(fn) if isinstance(n, ast.Compare) and len(n.ops) == 1 and isinstance(n.ops[0], (ast.In, ast.NotIn))
+                           for c in n.comparators if isinstance(c, ast.Name)}
+        self.container |= {n.func.value.id for n in ast.walk(fn) if isinstance(n, ast.Call) and isinstance(n.func, ast.Attribute)
+                           and n.func.attr == "index" and isinstance(n.func.value, ast.Name)}
+        # attributes used as a list directly (self.f[i] stepped, len(self.f)) where the model types them arg
+        self.listfields = [n.value.attr for n in subs if is_self_attr(n.value) and id(n) in stepped] + [a.attr for a in lens if is_self_attr(a)]
+        self.listfields = [a for a in dict.fromkeys(self.listfields)
+                           if a in klass.attr2field and dict(klass.fields)[klass.attr2field[a]] == "arg"]
+
+    @staticmethod
+    def dict_comp(c):
+        """dict([(K, Pattern.value(X[K])) for K in X]) -> (X,)"""
+        if not (isinstance(c, ast.Call) and isinstance(c.func, ast.Name) and c.func.id == "dict" and len(c.args) == 1 and not c.keywords
+                and isinstance(c.args[0], ast.ListComp) and len(c.args[0].generators) == 1):
+            return None
+        g, e = c.args[0].generators[0], c.args[0].elt
+        if g.ifs or g.is_async or not isinstance(g.target, ast.Name) or not isinstance(g.iter, ast.Name):
+            return None
+        K, X = g.target.id, g.iter.id
+        if not (isinstance(e, ast.Tuple) and len(e.elts) == 2 and isinstance(e.elts[0], ast.Name) and e.elts[0].id == K):
+            return None
+        v = e.elts[1]
+        if not (isinstance(v, ast.Call) and is_static(v.func, "Pattern", "value") and len(v.args) == 1 and not v.keywords
+                and isinstance(v.args[0], ast.Subscript) and isinstance(v.args[0].value, ast.Name) and v.args[0].value.id == X
+                and isinstance(v.args[0].slice, ast.Name) and v.args[0].slice.id == K):
+            return None
+        return (X,)
+
+    def seq_call(self, fnname, f, env, k, base, ty):
+        """values_of / kwvalues_of (pvalue fuel) over a list / dict of possibly pattern-valued items held by field f"""
+        o, f2, x = self.fresh("o"), self.fresh("self_" + f), self.fresh(base)
+        wrap = (lambda t: "(AD %s)" % t) if ty == "adict" else (lambda t: t)
+        cur = env.alias[f] if ty == "adict" else env.fields[f][1]
+        env2 = env.set_field(f, dict(self.k.fields)[f], wrap(f2))
+        if ty == "adict":
+            env2.alias[f] = f2
+        if self.mode != "next":
+            raise Reject("a comprehension over an attribute outside __next__")
+        return "(let '(%s, %s) := %s (pvalue %s) %s in\n match %s with\n | Yield %s =>%s\n | _ => (ocast %s, %s)\n end)" % (
+            o, f2, fnname, env.fuel, cur, o, x, I(k(x, env2)), o, self.st(env2))
+
+    def use(self, extra):
+        self.k.extras[self.mode].add(extra)
+        return extra
+
+    def with_listfields(self, env, body):
+        """the body under `match self_f with AL l => .. | _ => (Inexact, <state>)` for every attribute used as a list"""
+        if not self.listfields:
+            return body(env)
+        if self.mode != "next":
+            raise Reject("an attribute is used as a list outside __next__")
+        a = self.listfields[0]
+        f = self.field(a)
+        l = self.fresh("l_" + f)
+        env2 = env.set_field(f, "arg", "(AL %s)" % l)
+        env2.alias[f] = l
+        rest = self.listfields[1:]
+        saved, self.listfields = self.listfields, rest
+        try:
+            inner = self.with_listfields(env2, body)
+        finally:
+            self.listfields = saved
+        return "(match %s with\n | AL %s =>%s\n | _ => %s\n end)" % (env.fields[f][1], l, I(inner), self.r_exc(env, "Inexact"))
 
     # -- names ---------------------------------------------------------------------------------
     def fresh(self, base):
@@ -326,7 +430,8 @@ class Method:
             raise Reject("next() in reset / __init__")
         return "(let '(%s, %s) := %s %s %s in\n obind %s (fun %s =>%s))" % (o, f2, fnname, env.fuel, t, o, x, I(k("val", x, env2), 1))
 
-    def bind_list(self, name, attr, env, cont):
+    def bind_list(self, name, attr, env, cont, ctx=None):
+        ctx = ctx or Ctx(None)
         """x = Pattern.value(self.f) where x is then used as a list: Pattern.value returns a list as it is, so x is the
         list object held by self.f (model: f = AL l; anything else is outside the model: Inexact)"""
         f = self.field(attr)
@@ -335,24 +440,59 @@ class Method:
             raise Reject("Pattern.value(self.%s) used as a list, but the model types the attribute %s" % (attr, ty))
         l = self.fresh("l_" + f)
         env2 = env.set_field(f, "arg", "(AL %s)" % l).set_local(name, "alist:" + f, l)
-        return "(match %s with\n | AL %s =>%s\n | _ => %s\n end)" % (t, l, I(cont(env2)), self.r_exc(env, "Inexact"))
+        # anything but a list literal goes through Pattern.value and x is a VALUE; if the rest of the body does with it
+        # something that is not translated for values, that path is outside the model
+        try:
+            saved = (self.counter, self.forks)
+            other = self.child_call("pvalue", attr, env, ctx, lambda ty, t2, env1: cont(env1.set_local(name, "seqval", t2)), "v_" + name)
+        except Reject:
+            self.counter, self.forks = saved
+            other = self.r_exc(env, "Inexact")
+        return "(match %s with\n | AL %s =>%s\n | _ =>%s\n end)" % (t, l, I(cont(env2)), I(other))
 
-    def element_call(self, sub, env, ctx, k, base):
-        """Pattern.value(x[i]), x the list held by self.f: one call on the element, whose new state goes back into the list"""
-        name = sub.value.id
-        ty, l = env.locals.get(name, ("", None))
-        if not ty.startswith("alist:") or self.mode != "next" or ctx.on_stop:
-            raise Reject("subscript of %s, which is not a list held by an attribute" % name)
-        f = ty.split(":", 1)[1]
+    def element_call(self, fnname, sub, env, ctx, k, base):
+        """Pattern.value(x[i]) / next(x[i]), x the list held by self.f (a local bound to it, or self.f itself): one call on
+        the element, whose new state goes back into the list"""
+        if self.mode != "next":
+            raise Reject("a call on a list element outside __next__")
+        if isinstance(sub.value, ast.Name) and env.locals.get(sub.value.id, ("",))[0] == "seqval":
+            # Pattern.value(x[i]) on a list / tuple VALUE: its items are plain values
+            if fnname != "pvalue":
+                raise Reject("next() of an item of a list value")
+            c = env.locals[sub.value.id][1]
+            return self.ev(sub.slice, env, ctx, lambda ti, i, env1: self.prim("(py_seq_item %s %s)" % (c, self.to_val(ti, i)), env1, k, base, None))
+        if isinstance(sub.value, ast.Name):
+            name = sub.value.id
+            ty, _ = env.locals.get(name, ("", None))
+            if not ty.startswith("alist:"):
+                raise Reject("subscript of %s, which is not a list held by an attribute" % name)
+            f = ty.split(":", 1)[1]
+            cur = lambda e: e.locals[name][1]
+            upd = lambda e, l2: e.set_field(f, "arg", "(AL %s)" % l2).set_local(name, ty, l2)
+        else:
+            f = self.field(sub.value.attr)
+            if f not in env.alias:
+                raise Reject("subscript of self.%s, which is not used as a list throughout" % sub.value.attr)
+            cur = lambda e: e.alias[f]
+
+            def upd(e, l2):
+                e2 = e.set_field(f, "arg", "(AL %s)" % l2)
+                e2.alias[f] = l2
+                return e2
 
         def k1(ti, i, env1):
+            if ti == "val":
+                z = self.fresh("i")
+                return "(match int_of %s with\n | Some %s =>%s\n | None => %s\n end)" % (i, z, I(k1("Z", z, env1)), self.r_exc(env1, "Raise TypeError"))
             if ti != "Z":
                 raise Reject("index of type %s: %s" % (ti, ast.unparse(sub)))
+            l = cur(env1)
             a, o, a2, x = self.fresh("item"), self.fresh("o"), self.fresh("item"), self.fresh(base)
             l2 = "(update_nth (py_index_pos %s %s) %s %s)" % (l, i, a2, l)
-            env2 = env1.set_field(f, "arg", "(AL %s)" % l2).set_local(name, ty, l2)
-            inner = "(let '(%s, %s) := pvalue %s %s in\n match %s with\n | Yield %s =>%s\n | _ => (%s, %s)\n end)" % (
-                o, a2, env1.fuel, a, o, x, I(k("val", x, env2)), o, self.st(env2))
+            env2 = upd(env1, l2)
+            stop = (" | Stop =>%s\n" % I(ctx.on_stop(env2))) if ctx.on_stop else ""
+            inner = "(let '(%s, %s) := %s %s %s in\n match %s with\n | Yield %s =>%s\n%s | _ => (%s, %s)\n end)" % (
+                o, a2, fnname, env1.fuel, a, o, x, I(k("val", x, env2)), stop, o, self.st(env2))
             return "(match py_index %s %s with\n | Some %s =>%s\n | None => %s\n end)" % (l, i, a, I(inner), self.r_exc(env1, "Raise IndexError"))
         return self.ev(sub.slice, env, ctx, k1)
 
@@ -384,6 +524,57 @@ class Method:
             return k("Z", "MAXSIZE", env)
         if isinstance(n, ast.List) and not n.elts:
             return k("list val", "[]", env)
+        if (isinstance(n, ast.ListComp) and len(n.generators) == 1 and not n.generators[0].ifs and isinstance(n.generators[0].target, ast.Name)
+                and is_self_attr(n.generators[0].iter) and isinstance(n.elt, ast.Call) and is_static(n.elt.func, "Pattern", "value")
+                and len(n.elt.args) == 1 and isinstance(n.elt.args[0], ast.Name) and n.elt.args[0].id == n.generators[0].target.id):
+            # [Pattern.value(v) for v in self.f], f a list / tuple of possibly pattern-valued items
+            f = self.field(n.generators[0].iter.attr)
+            if dict(self.k.fields)[f] != "list arg":
+                raise Reject("comprehension over self.%s, which the model does not type as a list of operands" % n.generators[0].iter.attr)
+            return self.seq_call("values_of", f, env, lambda x, e2: k("vals", x, e2), base, "list")
+        if (isinstance(n, ast.Call) and isinstance(n.func, ast.Name) and n.func.id == "dict" and "dict" not in self.local_names
+                and len(n.args) == 1 and not n.keywords and isinstance(n.args[0], ast.GeneratorExp) and len(n.args[0].generators) == 1):
+            # dict((key, Pattern.value(value)) for key, value in list(self.f.items()))
+            g, e = n.args[0].generators[0], n.args[0].elt
+            it = g.iter
+            if isinstance(it, ast.Call) and isinstance(it.func, ast.Name) and it.func.id == "list" and len(it.args) == 1 and not it.keywords:
+                it = it.args[0]
+            ok = (not g.ifs and isinstance(g.target, ast.Tuple) and len(g.target.elts) == 2 and all(isinstance(t, ast.Name) for t in g.target.elts)
+                  and isinstance(it, ast.Call) and isinstance(it.func, ast.Attribute) and it.func.attr == "items" and not it.args and is_self_attr(it.func.value)
+                  and isinstance(e, ast.Tuple) and len(e.elts) == 2 and isinstance(e.elts[0], ast.Name) and e.elts[0].id == g.target.elts[0].id
+                  and isinstance(e.elts[1], ast.Call) and is_static(e.elts[1].func, "Pattern", "value") and len(e.elts[1].args) == 1
+                  and isinstance(e.elts[1].args[0], ast.Name) and e.elts[1].args[0].id == g.target.elts[1].id)
+            if not ok:
+                raise Reject("dict(generator) not understood: " + ast.unparse(n))
+            f = self.field(it.func.value.attr)
+            if dict(self.k.fields)[f] != "list (string * arg)":
+                raise Reject("self.%s.items(), which the model does not type as a dict of operands" % it.func.value.attr)
+            return self.seq_call("kwvalues_of", f, env, lambda x, e2: k("kwvals", x, e2), base, "list")
+        d = self.dict_comp(n)
+        if d and env.locals.get(d[0], ("",))[0].startswith("adict:"):
+            f = env.locals[d[0]][0].split(":", 1)[1]
+            return self.seq_call("kwvalues_of", f, env, lambda x, e2: k("val", "(VDict %s)" % x, e2), base, "adict")
+        if (isinstance(n, ast.Call) and is_self_attr(n.func) and self.k.attr2field.get(n.func.attr) and dict(self.k.fields)[self.k.attr2field[n.func.attr]] == "fn"
+                and len(n.args) == 2 and isinstance(n.args[1], ast.Starred) and isinstance(n.args[1].value, ast.Name)
+                and len(n.keywords) == 1 and n.keywords[0].arg is None and isinstance(n.keywords[0].value, ast.Name)):
+            # self.operator(x, *args, **kwargs): the function of the catalogue (Syntax.fn) applied by Step.apply_fn
+            A, KW = n.args[1].value.id, n.keywords[0].value.id
+            if env.locals.get(A, ("",))[0] != "vals" or env.locals.get(KW, ("",))[0] != "kwvals":
+                raise Reject("call of self.%s with arguments that are not the resolved args / kwargs" % n.func.attr)
+            op = env.fields[self.k.attr2field[n.func.attr]][1]
+            return self.ev(n.args[0], env, ctx, lambda ta, a, env1: self.prim(
+                "(apply_fn %s %s %s %s)" % (op, self.to_val(ta, a), env1.locals[A][1], env1.locals[KW][1]), env1, k, base, tail))
+        if isinstance(n, ast.UnaryOp) and isinstance(n.op, ast.USub):
+            def km(ta, a, env1):
+                if ta != "Z":
+                    raise Reject("unary minus on a non-int: " + ast.unparse(n))
+                return k("Z", "(- %s)" % a, env1)
+            return self.ev(n.operand, env, ctx, km)
+        if (isinstance(n, ast.Subscript) and isinstance(n.value, ast.Name) and isinstance(n.ctx, ast.Load)
+                and env.locals.get(n.value.id, ("",))[0] == "val" and n.value.id in self.container):
+            # x[k] on a container VALUE (a dict / list value): py_getitem
+            return self.ev(n.slice, env, ctx, lambda tk, kk, env1: self.prim(
+                "(%s %s %s)" % ("m_scale_getitem" if self.k.tonal else "py_getitem", env.locals[n.value.id][1], self.to_val(tk, kk)), env1, k, base, tail))
         if isinstance(n, ast.BinOp) and type(n.op) in PY_BINOP:
             def k1(ta, a, env1):
                 def k2(tb, b, env2):
@@ -441,8 +632,44 @@ class Method:
             if is_static(fn, "Pattern", "value") and "Pattern" not in self.local_names and len(n.args) == 1 and is_self_attr(n.args[0]):
                 return self.child_call("pvalue", n.args[0].attr, env, ctx, k, base)
             if (is_static(fn, "Pattern", "value") and "Pattern" not in self.local_names and len(n.args) == 1
-                    and isinstance(n.args[0], ast.Subscript) and isinstance(n.args[0].value, ast.Name)):
-                return self.element_call(n.args[0], env, ctx, k, base)
+                    and isinstance(n.args[0], ast.Subscript) and (isinstance(n.args[0].value, ast.Name) or is_self_attr(n.args[0].value))):
+                return self.element_call("pvalue", n.args[0], env, ctx, k, base)
+            if (isinstance(fn, ast.Name) and fn.id == "next" and "next" not in self.local_names and len(n.args) == 1
+                    and isinstance(n.args[0], ast.Subscript) and (isinstance(n.args[0].value, ast.Name) or is_self_attr(n.args[0].value))):
+                return self.element_call("pnext", n.args[0], env, ctx, k, base)
+            if (isinstance(fn, ast.Name) and fn.id == "len" and "len" not in self.local_names and len(n.args) == 1
+                    and is_self_attr(n.args[0]) and self.k.attr2field.get(n.args[0].attr) in env.alias):
+                return k("Z", "(zlen %s)" % env.alias[self.k.attr2field[n.args[0].attr]], env)
+            if (isinstance(fn, ast.Attribute) and fn.attr == "index" and isinstance(fn.value, ast.Name) and len(n.args) == 1
+                    and env.locals.get(fn.value.id, ("",))[0] == "val"):
+                return self.ev(n.args[0], env, ctx, lambda ta, a, env1: self.prim(
+                    "(py_list_index %s %s)" % (env.locals[fn.value.id][1], self.to_val(ta, a)), env1, k, base, tail))
+            if (self.k.tonal and isinstance(fn, ast.Attribute) and fn.attr == "nearest_note" and isinstance(fn.value, ast.Name) and len(n.args) == 1
+                    and env.locals.get(fn.value.id, ("",))[0] == "val"):
+                return self.ev(n.args[0], env, ctx, lambda ta, a, env1: self.prim(
+                    "(m_key_nearest_note %s %s)" % (env.locals[fn.value.id][1], self.to_val(ta, a)), env1, k, base, tail))
+            if (self.k.tonal and isinstance(fn, ast.Name) and fn.id == "tuple" and "tuple" not in self.local_names and len(n.args) == 1
+                    and isinstance(n.args[0], ast.GeneratorExp)):
+                # tuple(E for v in xs), xs a value, E one application of a primitive to v: m_tuple_of (fun v => E) xs
+                g = n.args[0]
+                if (len(g.generators) != 1 or g.generators[0].ifs or g.generators[0].is_async or not isinstance(g.generators[0].target, ast.Name)
+                        or not isinstance(g.generators[0].iter, ast.Name) or env.locals.get(g.generators[0].iter.id, ("",))[0] != "val"):
+                    raise Reject("generator expression not understood: " + ast.unparse(n))
+                v = self.fresh("e")
+                envg = env.set_local(g.generators[0].target.id, "val", v)
+                got = []
+                r = self.ev(g.elt, envg, Ctx(None), lambda ty, t, e2: got.append(None) or "", tail=lambda o, e2: got.append((o, e2 is envg)) or "")
+                if r != "" or len(got) != 1 or got[0] is None or not got[0][1]:
+                    raise Reject("element of the generator expression is not one primitive application: " + ast.unparse(g.elt))
+                return self.prim("(m_tuple_of (fun %s => %s) %s)" % (v, got[0][0], env.locals[g.generators[0].iter.id][1]), env, k, base, tail)
+            if (self.mode != "next" and isinstance(fn, ast.Attribute) and fn.attr == "all" and is_self_attr(fn.value) and not n.args):
+                f = self.field(fn.value.attr)
+                ty, t = env.fields[f]
+                if ty != "arg" or t is None:
+                    raise Reject("self.%s.all(), but the model types the attribute %s" % (fn.value.attr, ty))
+                o, f2, x = self.fresh("o"), self.fresh("self_" + f), self.fresh(base)
+                return "(let '(%s, %s) := %s %s %s in\n obind %s (fun %s =>%s))" % (
+                    o, f2, self.use("pall"), env.fuel, t, o, x, I(k("list val", x, env.set_field(f, "arg", f2)), 1))
             if (isinstance(fn, ast.Name) and fn.id == "len" and "len" not in self.local_names and len(n.args) == 1
                     and isinstance(n.args[0], ast.Name) and env.locals.get(n.args[0].id, ("",))[0].startswith("alist:")):
                 return k("Z", "(zlen %s)" % env.locals[n.args[0].id][1], env)
@@ -512,6 +739,13 @@ class Method:
                 if ty != "val" or binds:
                     raise Reject("`is None` on a non-value: " + ast.unparse(n))
                 return ("pure", "(is_none %s)" % t if op is ast.Is else "(negb (is_none %s))" % t)
+            if op in (ast.In, ast.NotIn):
+                ta, a, b1 = self.pure_operand(l, env)
+                tb, b, b2 = self.pure_operand(r, env)
+                if tb != "val" or b1 or b2:
+                    raise Reject("`in` on something that is not a container value: " + ast.unparse(n))
+                ir = ("cmp", "(%s %s %s)" % ("m_key_contains" if self.k.tonal else "py_contains", self.to_val(ta, a), b))
+                return ("not", ir) if op is ast.NotIn else ir
             if op in PY_CMP:
                 ta, a, b1 = self.pure_operand(l, env)
                 tb, b, b2 = self.pure_operand(r, env)
@@ -530,6 +764,12 @@ class Method:
                 for (o, x) in reversed(b1 + b2):
                     ir = ("bind", o, x, ir)
                 return ir
+        if (self.k.tonal and isinstance(n, ast.Call) and isinstance(n.func, ast.Name) and n.func.id == "isinstance" and not n.keywords
+                and len(n.args) == 2 and is_static(n.args[1], "typing", "Iterable") and "isinstance" not in self.local_names):
+            ty, t, binds = self.pure_operand(n.args[0], env)
+            if ty != "val" or binds:
+                raise Reject("isinstance of a non-value: " + ast.unparse(n))
+            return ("pure", "(is_iterable %s)" % t)
         # a bare expression as a condition: its truth value
         ty, t, binds = self.pure_operand(n, env)
         if ty == "bool":
@@ -596,7 +836,22 @@ class Method:
             v = st.value
             if (isinstance(tg, ast.Name) and tg.id in self.listlike and self.mode == "next" and isinstance(v, ast.Call) and not v.keywords
                     and is_static(v.func, "Pattern", "value") and "Pattern" not in self.local_names and len(v.args) == 1 and is_self_attr(v.args[0])):
-                return self.bind_list(tg.id, v.args[0].attr, env, cont)
+                return self.bind_list(tg.id, v.args[0].attr, env, cont, ctx)
+            if (isinstance(tg, ast.Name) and tg.id in self.dictlike and self.mode == "next" and isinstance(v, ast.Call) and not v.keywords
+                    and is_static(v.func, "Pattern", "value") and "Pattern" not in self.local_names and len(v.args) == 1 and is_self_attr(v.args[0])):
+                # Pattern.value returns a dict as it is: x is the dict held by the attribute (model: f = AD kv)
+                f = self.field(v.args[0].attr)
+                if env.fields[f][0] != "arg":
+                    raise Reject("Pattern.value(self.%s) used as a dict, but the model types the attribute %s" % (v.args[0].attr, env.fields[f][0]))
+                kv = self.fresh("kv_" + f)
+                env2 = env.set_field(f, "arg", "(AD %s)" % kv).set_local(tg.id, "adict:" + f, kv)
+                env2.alias[f] = kv
+                return "(match %s with\n | AD %s =>%s\n | _ => %s\n end)" % (env.fields[f][1], kv, I(cont(env2)), self.r_exc(env, "Inexact"))
+            if (isinstance(tg, ast.Name) and tg.id in self.container and self.mode == "next" and isinstance(v, ast.Call) and not v.keywords
+                    and is_static(v.func, "Pattern", "value") and "Pattern" not in self.local_names and len(v.args) == 1 and is_self_attr(v.args[0])):
+                if tg.id in self.listlike:
+                    raise Reject("%s is used both as the list of an attribute and as a container value" % tg.id)
+                return self.child_call("pvalue" if self.k.tonal else "cvalue pvalue", v.args[0].attr, env, ctx, lambda ty, t, env1: cont(self.assign(tg, ty, t, env1)), "v_" + base)
             return self.ev(st.value, env, ctx, lambda ty, t, env1: cont(self.assign(tg, ty, t, env1)), base="v_" + base)
         if isinstance(st, ast.AugAssign) and type(st.op) in PY_BINOP and (isinstance(st.target, ast.Name) or is_self_attr(st.target)):
             load = ast.copy_location(ast.Name(st.target.id, ast.Load()), st.target) if isinstance(st.target, ast.Name) else \
@@ -605,6 +860,9 @@ class Method:
             return self.ev(ast.BinOp(load, st.op, st.value), env, ctx, lambda ty, t, env1: cont(self.assign(st.target, ty, t, env1)), base="v_" + base)
         if isinstance(st, ast.If):
             return self.emit_cond(self.cond_ir(st.test, env), env, lambda: self.run(st.body + rest, env, ctx), lambda: self.run(st.orelse + rest, env, ctx))
+        if isinstance(st, ast.Raise) and st.cause is None and st.exc is None and ctx.in_handler and self.mode == "next":
+            # bare `raise` inside `except StopIteration:` re-raises it
+            return ctx.on_stop(env) if ctx.on_stop else self.r_exc(env, "Stop")
         if isinstance(st, ast.Raise) and st.cause is None and st.exc is not None:
             e = st.exc.func if isinstance(st.exc, ast.Call) and not st.exc.args and not st.exc.keywords else st.exc
             if isinstance(e, ast.Name) and e.id == "StopIteration" and self.mode == "next":
@@ -616,6 +874,10 @@ class Method:
             if self.mode == "next":
                 if st.value is None:
                     return self.r_yield(env, "VNone")
+                v = st.value
+                if (isinstance(v, ast.Call) and not v.keywords and isinstance(v.func, ast.Name) and v.func.id == "next" and "next" not in self.local_names
+                        and len(v.args) == 1 and isinstance(v.args[0], ast.Name) and v.args[0].id == "self"):
+                    return "(%s %s %s)" % (self.use("pself"), env.fuel, self.st(env))        # return next(self)
                 return self.ev(st.value, env, ctx, lambda ty, t, env1: self.r_yield(env1, self.to_val(ty, t)), base="r",
                                tail=lambda o, env1: self.res(env1, o))
             if st.value is not None:
@@ -626,7 +888,8 @@ class Method:
                     or st.handlers[0].name is not None
                     or not (isinstance(st.handlers[0].type, ast.Name) and st.handlers[0].type.id == "StopIteration")):
                 raise Reject("try statement other than a plain `try: .. except StopIteration: ..`")
-            inner = Ctx(on_end=cont, on_stop=lambda env1: self.run(st.handlers[0].body + rest, env1, ctx), in_try=True)
+            hctx = Ctx(ctx.on_end, ctx.on_stop, ctx.in_try, ctx.in_loop, in_handler=True)
+            inner = Ctx(on_end=cont, on_stop=lambda env1: self.run(st.handlers[0].body + rest, env1, hctx), in_try=True)
             return self.run(st.body, env, inner)
         if isinstance(st, ast.While) and not st.orelse:
             if self.mode != "next" or ctx.in_try or ctx.in_loop:
@@ -642,6 +905,20 @@ class Method:
                 def k(ty, t, env1):
                     return cont(env1.set_field(f, "list val", "(%s ++ [%s])" % (env1.fields[f][1], self.to_val(ty, t))))
                 return self.ev(c.args[0], env, ctx, k, base="v_item")
+            if (isinstance(c.func, ast.Attribute) and c.func.attr == "reset" and not c.args and is_self_attr(c.func.value)
+                    and not ctx.in_loop):
+                # self.f.reset(): the attribute must hold a pattern
+                f = self.field(c.func.value.attr)
+                ty, t = env.fields[f]
+                if ty != "arg" or t is None:
+                    raise Reject("self.%s.reset(), but the model types the attribute %s" % (c.func.value.attr, ty))
+                f2 = self.fresh("self_" + f)
+                env2 = env.set_field(f, "arg", f2)
+                if self.mode == "next":
+                    o = self.fresh("o")
+                    return "(match %s %s %s with\n | Yield %s =>%s\n | %s => %s\n end)" % (
+                        self.use("preset"), env.fuel, t, f2, I(cont(env2)), o, self.r_fail(env, o, False))
+                return "(obind (%s %s %s) (fun %s =>%s))" % (self.use("preset"), env.fuel, t, f2, I(cont(env2), 1))
             if (self.mode == "reset" and isinstance(c.func, ast.Attribute) and c.func.attr == "reset" and not c.args
                     and isinstance(c.func.value, ast.Call) and isinstance(c.func.value.func, ast.Name)
                     and c.func.value.func.id == "super" and not c.func.value.args and "super" not in self.local_names):
@@ -655,6 +932,8 @@ class Method:
     def base_reset(self, base, env, cont):
         if base != "Pattern":
             raise Reject("super().reset() resolves to %s.reset, which is not Pattern.reset" % base)
+        if any(ty in ("list arg", "list (string * arg)") for (_, ty) in self.k.fields):
+            raise Reject("Pattern.reset over a tuple / dict of operands held by an attribute")
         order = [a for a in self.k.attr_order if a in self.k.attr2field and dict(self.k.fields)[self.k.attr2field[a]] == "arg"]
         missing = [f for (f, ty) in self.k.fields if ty == "arg" and f not in [self.k.attr2field[a] for a in order]]
         if missing:
@@ -680,13 +959,16 @@ class Method:
                     raise Reject("self.reset() in __init__ before the pattern-valued attribute %s exists" % f)
                 t = defaults[ty]
             ts.append(t)
-        return "(src_%s_reset rp pvalue fuel %s)" % (self.k.name, " ".join(ts))
+        self.k.extras[self.mode] |= self.k.extras["reset"]
+        return "(src_%s_reset rp pvalue fuel%s %s)" % (self.k.name, extras_args(self.k.extras["reset"]), " ".join(ts))
 
     def loop(self, st, rest, env, ctx):
         self.nloops += 1
         if self.nloops > 4:
             raise Reject("too many loops")
         self.k.has_loops = True
+        if self.k.extras["next"]:
+            raise Reject("a loop in a method that also needs " + ", ".join(sorted(self.k.extras["next"])))
         name = "src_%s_next_loop%d" % (self.k.name, self.nloops)
         # a local that the body rebinds holds a Python value of any type from then on
         rebound = {n.id for b in st.body for n in ast.walk(b) if isinstance(n, ast.Name) and not isinstance(n.ctx, ast.Load)}
@@ -716,7 +998,7 @@ class Method:
         term = self.emit_cond(c, env0, lambda: body, lambda: after)
         sig = " ".join("(%s : %s)" % (p, ty) for (_, ty, p) in fparams + lparams)
         self.defs.append("Fixpoint %s (bop : op -> val -> val -> outcome val) (pvalue pnext : nat -> arg -> outcome val * arg)\n"
-                         "    (fuel lfuel n : nat) %s {struct n} : outcome val * pat :=%s." % (name, sig, I(term, 2)))
+                         "    (fuel lfuel n : nat) %s {struct n} : outcome val * %s :=%s." % (name, sig, self.k.rtype, I(term, 2)))
         return "(%s bop pvalue pnext fuel lfuel lfuel %s)" % (name, " ".join([env.fields[f][1] for (f, _, _) in fparams] + [env.locals[n][1] for (n, _, _) in lparams]))
 
 
@@ -740,7 +1022,7 @@ def class_chain(modules, node):
         out.append(node)
 
 
-def find_method(chain, name):
+def find_method(chain, name, strict=True):
     """(defining class, FunctionDef) by the MRO of a single-inheritance chain; None if only Pattern has it"""
     for c in chain:
         fs = [n for n in c.body if isinstance(n, (ast.FunctionDef, ast.AsyncFunctionDef)) and n.name == name]
@@ -749,7 +1031,7 @@ def find_method(chain, name):
         if fs:
             fn = fs[0]
             a = fn.args
-            if not isinstance(fn, ast.FunctionDef) or fn.decorator_list or a.posonlyargs or a.kwonlyargs or a.vararg or a.kwarg:
+            if not isinstance(fn, ast.FunctionDef) or fn.decorator_list or a.posonlyargs or a.kwonlyargs or (strict and (a.vararg or a.kwarg)):
                 raise Reject("%s.%s: signature / decorators not understood" % (c.name, name))
             if not a.args or a.args[0].arg != "self":
                 raise Reject("%s.%s: first parameter is not self" % (c.name, name))
@@ -777,7 +1059,14 @@ def all_self_attrs(chain):
     return out
 
 
-def translate_class(modules, ctors, fname, cname):
+# isobar/pattern/tonal.py: the model of these classes is Pat/TonalStreams.v (objects: mkT <class> <input> <parameter>)
+TONAL = {"PDegree": ("mkT TDegree", [("degree", "arg"), ("scale", "arg")]),
+         "PFilterByKey": ("mkT TFilterByKey", [("pattern", "arg"), ("key", "arg")]),
+         "PNearestNoteInKey": ("mkT TNearestNoteInKey", [("pattern", "arg"), ("key", "arg")])}
+TONAL_UNMODELLED = ["PMidiNoteToFrequency", "PMidiSemitonesToFrequencyRatio", "PKeyTonic", "PKeyScale"]
+
+
+def translate_class(modules, ctors, fname, cname, tonal=False):
     """-> (Klass, {method: text or Reject})"""
     mod = modules[fname]
     nodes = [c for c in mod.body if isinstance(c, ast.ClassDef) and c.name == cname]
@@ -787,6 +1076,11 @@ def translate_class(modules, ctors, fname, cname):
     check_class_body(chain)
     k = Klass()
     k.name, k.has_loops, k.reset_translated = cname, False, False
+    k.extras = {"next": set(), "reset": set(), "init": set()}
+    k.tonal, k.rtype = tonal, ("tobj" if tonal else "pat")
+    if tonal:
+        ctors = dict(ctors)
+        ctors[cname] = TONAL[cname][1]
     if cname in BINOPS:
         k.ctor_name, fixed = "PBinOp", [BINOPS[cname]]
     else:
@@ -796,7 +1090,7 @@ def translate_class(modules, ctors, fname, cname):
     decl = ctors[k.ctor_name][len(fixed):]
     if fixed and ctors[k.ctor_name][0][1] != "op":
         raise Reject("PBinOp: first field is not the operator")
-    k.ctor = " ".join([k.ctor_name] + fixed)
+    k.ctor = TONAL[cname][0] if tonal else " ".join([k.ctor_name] + fixed)
     bad = [(f, ty) for (f, ty) in decl if ty not in SUPPORTED_TYPES]
     if bad:
         raise Reject("model field %s : %s is of a type the translation does not handle" % bad[0])
@@ -820,7 +1114,7 @@ def translate_class(modules, ctors, fname, cname):
     for f in k.attr2field:
         if f not in mentioned:
             raise Reject("model field %s is not an attribute of the class" % f)
-    init = find_method(chain, "__init__")
+    init = find_method(chain, "__init__", strict=False)
     if init is None:
         raise Reject("no __init__")
     k.attr_order = attr_creation_order(init[1])
@@ -848,8 +1142,8 @@ def translate_class(modules, ctors, fname, cname):
             k.base_of_reset = nxt[0].name if nxt else "Pattern"
             term = m.run(r[1].body, fields_env(), end)
             src = ast.unparse(r[1])
-        results["reset"] = (src, "Definition src_%s_reset (rp : pat -> outcome pat) (pvalue : nat -> arg -> outcome val * arg) (fuel : nat)\n"
-                                 "    %s : outcome pat :=%s." % (cname, sig_fields(), I(term, 2)))
+        results["reset"] = (src, "Definition src_%s_reset (rp : pat -> outcome pat) (pvalue : nat -> arg -> outcome val * arg) (fuel : nat)%s\n"
+                                 "    %s : outcome pat :=%s." % (cname, extras_sig(k.extras["reset"]), sig_fields(), I(term, 2)))
         k.reset_translated = True
     except Reject as e:
         results["reset"] = e
@@ -862,16 +1156,20 @@ def translate_class(modules, ctors, fname, cname):
             raise Reject("__next__ takes parameters")
         m = Method(k, "next", r[1])
         end = Ctx(on_end=lambda env: m.r_yield(env, "VNone"))
-        term = m.run(r[1].body, fields_env(), end)
+        term = m.with_listfields(fields_env(), lambda env: m.run(r[1].body, env, end))
         lf = " lfuel" if k.has_loops else ""
+        if k.has_loops and k.extras["next"]:
+            raise Reject("a loop in a method that also needs " + ", ".join(sorted(k.extras["next"])))
         results["next"] = (ast.unparse(r[1]), "\n".join(m.defs + [
             "Definition src_%s_next (bop : op -> val -> val -> outcome val) (pvalue pnext : nat -> arg -> outcome val * arg)\n"
-            "    (fuel%s : nat) %s : outcome val * pat :=%s." % (cname, lf, sig_fields(), I(term, 2))]))
+            "    (fuel%s : nat)%s %s : outcome val * %s :=%s." % (cname, lf, extras_sig(k.extras["next"]), sig_fields(), k.rtype, I(term, 2))]))
     except Reject as e:
         results["next"] = e
     # ---- __init__ ----
     try:
         fn = init[1]
+        if fn.args.vararg or fn.args.kwarg:
+            raise Reject("__init__ takes *args / **kwargs")
         if fn.args.kw_defaults or any(not isinstance(d, (ast.Constant, ast.Attribute)) for d in fn.args.defaults):
             raise Reject("__init__: defaults not understood")
         params = [a.arg for a in fn.args.args[1:]]
@@ -908,14 +1206,14 @@ def translate_class(modules, ctors, fname, cname):
         end = Ctx(on_end=lambda env: m.r_yield(env, None))
         term = m.run(fn.body, env, end)
         sig = " ".join("(p_%s : %s)" % (p, ptypes[p]) for p in params)
-        results["init"] = (ast.unparse(fn), "Definition src_%s_init (rp : pat -> outcome pat) (pvalue : nat -> arg -> outcome val * arg) (fuel : nat)\n"
-                                            "    %s : outcome pat :=%s." % (cname, sig, I(term, 2)))
+        results["init"] = (ast.unparse(fn), "Definition src_%s_init (rp : pat -> outcome pat) (pvalue : nat -> arg -> outcome val * arg) (fuel : nat)%s\n"
+                                            "    %s : outcome pat :=%s." % (cname, extras_sig(k.extras["init"]), sig, I(term, 2)))
     except Reject as e:
         results["init"] = e
     return k, results
 
 
-PRIMITIVES = ("value", "reset", "pattern", "__next__")
+PRIMITIVES = ("value", "reset", "pattern", "__next__", "all")
 PIN_FILE = os.path.join(HERE, "gen_tables_step.pin")
 
 
@@ -998,7 +1296,7 @@ def main(out_path):
     text = ("(* GENERATED by harness/gen_tables_step.py from the source text of isobar/pattern/{core,sequence,scalar}.py.  Do not edit.\n"
             "   Translation rules: see the docstring of the generator and docs/TRANSLATOR.md.  Tie-in: Pat/StepSrc.v.\n\n"
             "%s *)\n"
-            "From Isobar Require Import Base.Prelude Pat.Val Pat.Syntax Pat.Step.\n"
+            "From Isobar Require Import Base.Prelude Pat.Val Pat.Syntax Pat.Step Pat.SrcLib.\n"
             "From Coq Require Import String QArith.\n"
             "Open Scope Z_scope.\n\n%s" % ("\n".join("   " + comment(l) for l in lines), "\n".join(body)))
     for l in lines:
@@ -1014,6 +1312,47 @@ def main(out_path):
         print("tables-step: rewritten")
     else:
         print("tables-step: unchanged")
+
+
+def main_tonal(out_path):
+    """isobar/pattern/tonal.py -> Generated/TablesSteptonal.v (called by harness/gen_tables_steptonal.py)"""
+    repo = os.environ.get("PYTHONPATH", "/repo").split(":")[0]
+    modules = {f: ast.parse(open(os.path.join(repo, "isobar", "pattern", f)).read()) for f in ("core.py", "tonal.py")}
+    check_primitives(modules["core.py"])
+    body, lines, failed = [], [], []
+    for cname in TONAL:
+        try:
+            k, results = translate_class(modules, {}, "tonal.py", cname, tonal=True)
+            r = results["next"]
+        except Reject as e:
+            r = e
+        if isinstance(r, Reject):
+            lines.append("%-32s next: REJECTED: %s" % (cname, r))
+            failed.append("%s.next: %s" % (cname, r))
+        else:
+            body.append("(* %s.__next__ (isobar/pattern/tonal.py):\n%s *)\n%s\n" % (cname, "\n".join("     " + l for l in comment(r[0]).splitlines()), r[1]))
+            lines.append("%-32s next: translated" % cname)
+    for cname in TONAL_UNMODELLED:
+        lines.append("%-32s not translated: the Coq development has no model of this class to tie it to" % cname)
+    text = ("(* GENERATED by harness/gen_tables_steptonal.py (gen_tables_step.py, tonal mode) from the source text of\n"
+            "   isobar/pattern/tonal.py.  Do not edit.  Tie-in: Pat/StepTonalSrc.v; method calls on Scale / Key objects: Pat/TonalSrcLib.v.\n\n"
+            "%s *)\n"
+            "From Isobar Require Import Base.Prelude Pat.Val Pat.Syntax Pat.Step Pat.SrcLib Pat.Ref Tonal.Key Pat.TonalStreams Pat.TonalSrcLib.\n"
+            "From Coq Require Import String QArith.\n"
+            "Open Scope Z_scope.\n\n%s" % ("\n".join("   " + comment(l) for l in lines), "\n".join(body)))
+    for l in lines:
+        print("tables-steptonal: " + l)
+    if failed:
+        raise Reject("classes that Pat/StepTonalSrc.v has a proof for no longer translate: " + "; ".join(failed))
+    old = open(out_path).read() if os.path.exists(out_path) else None
+    if old != text:
+        tmp = out_path + ".tmp%d" % os.getpid()
+        with open(tmp, "w") as f:
+            f.write(text)
+        os.replace(tmp, out_path)
+        print("tables-steptonal: rewritten")
+    else:
+        print("tables-steptonal: unchanged")
 
 
 if __name__ == "__main__":
